@@ -267,6 +267,36 @@ def run():
             edges.sort(key=lambda e: (times[e["parent"]], e["parent"], e["child"]))
         a = dict(L=1, time=times, flags=[1] * N, edges=edges, sites=[], muts=[], _all_default=1)
         cases.append(drive(a, rng))
+    # many nodes, deep: "identically on the fast and the general code path" on comb trees and unary chains far deeper than any recursion
+    # limit (harness-evaluated string comparison: the fast path's output is validated token by token on the small cases above)
+    deep = 0
+    for n in ([1500, 4000] if QUICK else [600, 1100, 1500, 4000, 20000]):
+        for shape in ("comb", "chain"):
+            if shape == "comb":
+                tree = tskit.Tree.generate_comb(n)
+            else:
+                tb = tskit.TableCollection(1)
+                for j in range(n):
+                    tb.nodes.add_row(flags=1, time=j)
+                    if j:
+                        tb.edges.add_row(0, 1, j, j - 1)
+                tree = tb.tree_sequence().first()
+            labels = {int(u): "n%d" % u for u in tree.tree_sequence.samples()}
+            chk.note_case(dict(deep=shape, n=n), True)
+            try:
+                fast = tree.as_newick()
+                general = tree.as_newick(node_labels=labels)
+                nolen = tree.as_newick(include_branch_lengths=False)
+            except Exception as e:  # noqa: BLE001
+                chk.violation("as_newick fails on a deep single-rooted tree (%s, %d nodes deep): %s: %s" % (shape, n, type(e).__name__, str(e)[:80]),
+                              dict(shape=shape, n=n))
+                continue
+            if general != fast or nolen != re.sub(r":[0-9.]+", "", fast):
+                chk.violation("as_newick: general and fast code paths differ on a deep tree (%s, %d)" % (shape, n), dict(shape=shape, n=n))
+            else:
+                deep += 1
+                chk.traces += 1
+    chk.extra["deep_trees_ok"] = deep
     nmain = len(cases)
     for i in range(150 if QUICK else 10000):
         c = fasta_case(rng)
